@@ -197,6 +197,20 @@ def precOK (deps : Nat → List Nat) : List Nat → List Ev → Bool
 def cfgOf (fs : List FileRec) (walk : List Nat) (w : Nat) : Cfg :=
   { deps := codeDeps fs, src := hasSrc fs, walk := walk, w := w }
 
+/-- incremental build (`force=False`): the objects in `fresh` are up to date (`Obj.build` returns before a job
+is queued: `t_time > s_time`), so like nodes without a source they get **no task** and nobody waits for them.
+The protocol layer is unchanged: "has a task" is the predicate `src` of the configuration. -/
+def cfgOfInc (fs : List FileRec) (fresh walk : List Nat) (w : Nat) : Cfg :=
+  { deps := codeDeps fs, src := fun d => hasSrc fs d && !fresh.contains d, walk := walk, w := w }
+
+/-- dependencies that get a task in an incremental build -/
+def srcDepsInc (fs : List FileRec) (fresh : List Nat) (n : Nat) : List Nat :=
+  (codeDeps fs n).filter (fun d => hasSrc fs d && !fresh.contains d)
+
+/-- ground-truth dependencies that are rebuilt -/
+def trueDepsInc (fs : List FileRec) (fresh : List Nat) (n : Nat) : List Nat :=
+  (trueDeps fs n).filter (fun d => !fresh.contains d)
+
 /-- dependencies that have a source (the edges the build can honour) -/
 def srcDeps (fs : List FileRec) (n : Nat) : List Nat := (codeDeps fs n).filter (hasSrc fs)
 
